@@ -700,7 +700,33 @@ fn mutants_inner(m: &Module, rng: &mut Rng, prof: Profile) -> Vec<(String, Modul
                 mm.types[ti].methods[0].self_param = Some(SelfParam { ty: t.name.clone(), by_ref: false, mutable: false, lt: Lt::Anon });
                 out.push(("self-outstruct".into(), mm));
             }
+            Def::Enum { .. } => {
+                // an enum is a value on the wire; `&self` would make the exported function take a pointer (F44)
+                let mut mm = m.clone();
+                mm.types[ti].methods[0].self_param = Some(SelfParam { ty: t.name.clone(), by_ref: true, mutable: false, lt: Lt::Anon });
+                out.push(("self-ref-enum".into(), mm));
+            }
             _ => {}
+        }
+    }
+    // a write parameter next to a returned value (F45): the bindings return the string *or* the value
+    {
+        let opaque_sites: Vec<(usize, usize)> = sites.iter().cloned().filter(|(ti, _)| matches!(m.types[*ti].def, Def::Opaque)).collect();
+        if !opaque_sites.is_empty() {
+            for (tag, ret) in [
+                ("write-with-value-return", Ty::Prim(Prim::U32)),
+                ("write-with-value-in-result", Ty::Res(Box::new(Ty::Prim(Prim::U8)), Box::new(Ty::Unit), Sd::Std)),
+                ("write-with-value-in-option", Ty::Opt(Box::new(Ty::Prim(Prim::I16)), Sd::Std)),
+            ] {
+                let (ti, mi) = *rng.pick(&opaque_sites);
+                let mut mm = m.clone();
+                let owner = mm.types[ti].name.clone();
+                let me = &mut mm.types[ti].methods[mi];
+                me.self_param = Some(SelfParam { ty: owner, by_ref: true, mutable: false, lt: Lt::Anon });
+                me.params = vec![("x".into(), Ty::Prim(Prim::U8)), ("write".into(), Ty::Write)];
+                me.ret = Some(ret);
+                out.push((tag.to_string(), mm));
+            }
         }
     }
     // struct field rules
